@@ -27,10 +27,10 @@ const (
 )
 
 type Step struct {
-	Kind       StepKind
-	T          types.Type // type of the container the step is applied to
-	Field      int
-	Idx        string
+	Kind  StepKind
+	T     types.Type // type of the container the step is applied to
+	Field int
+	Idx   string
 }
 
 // Loc is an lvalue: a cell plus a path into its content.
